@@ -13,6 +13,57 @@ func init() {
 	vHarnesses["VerifC14Patch"] = VerifC14Patch
 	vHarnesses["VerifC14Errors"] = VerifC14Errors
 	vHarnesses["VerifC14Canary"] = VerifC14Canary
+	vHarnesses["VerifC14Translate"] = VerifC14Translate
+}
+
+// VerifC14Translate: -t X2Y prints exactly the library translation and exits 0.
+func VerifC14Translate() {
+	a, b := vDoc(), vDoc()
+	which := vChoice(4)
+	var in, want string
+	var werr error
+	switch which {
+	case 0: // jd2patch
+		d := a.Diff(b)
+		in = d.Render()
+		want, werr = d.RenderPatch()
+	case 1: // patch2jd
+		in, werr = a.Diff(b).RenderPatch()
+		if werr == nil {
+			d2, e := jd.ReadPatchString(in)
+			werr = e
+			if e == nil {
+				want = d2.Render()
+			}
+		}
+	case 2: // jd2merge
+		d := a.Diff(b, jd.MERGE)
+		in = d.Render()
+		want, werr = d.RenderMerge()
+	default: // merge2jd
+		in, werr = a.Diff(b, jd.MERGE).RenderMerge()
+		if werr == nil {
+			d2, e := jd.ReadMergeString(in)
+			werr = e
+			if e == nil {
+				want = d2.Render()
+			}
+		}
+	}
+	vAssume(werr == nil)
+	name := [...]string{"jd2patch", "patch2jd", "jd2merge", "merge2jd"}[which]
+	vCLISetFile("in.txt", in)
+	var code int
+	if vChoice(2) == 0 {
+		code = vCLIRun([]string{"-t", name, "in.txt"})
+	} else {
+		vCLISetStdin(in)
+		code = vCLIRun([]string{"-t", name})
+	}
+	vAssert(code == 0, "translation of a valid input does not exit 0")
+	vAssert(vCLIStdout() == want, "translation output differs from the library translation")
+	vCover("c14.translate." + name)
+	vCLIReset()
 }
 
 func vNode(x interface{}) jd.JsonNode {
@@ -69,6 +120,11 @@ func vPickFlags() vFlags {
 	f.format = [...]string{"", "jd", "patch", "merge"}[vChoice(vParam("FORMATS", 4))]
 	if vParam("COLOR", 0) == 1 && vChoice(2) == 1 {
 		f.color = true
+	}
+	if vParam("PRECISION", 0) == 1 && !f.set && !f.mset && vChoice(2) == 1 {
+		f.precision = true
+		f.eps = vF64()
+		vAssume(f.eps >= 0)
 	}
 	return f
 }
@@ -159,9 +215,9 @@ func VerifC14Diff() {
 		vCLIReset()
 		return
 	}
-	if vKnown("cli.mergeexit") && f.format == "merge" {
-		// listed finding: -f merge decides the exit status from the rendered text "{}"
-		vAssume(eq == (want == "{}"))
+	if f.precision && vKnown("precision.diff") {
+		// listed finding: Diff does not honour Precision (Equals does)
+		vAssume(eq == a.Equals(b))
 	}
 	if eq {
 		vAssert(code == 0, "inputs are equal under the flags but the exit status is not 0")
